@@ -28,6 +28,13 @@ def _concat_alias(s, ctx):
     s.concatenate([m, m])
 
 
+def _rejected_scale(s, ctx):
+    try:
+        s.scale(1.5, quantise_afterwards=False)
+    except Exception:  # noqa: BLE001
+        return "raised"
+
+
 def _concat_copy(s, ctx):
     s.concatenate([s.copy()])
 
@@ -88,6 +95,8 @@ HIST_OPS = {
     # the sequence as its own operand
     "concat_self": lambda s, c: s.concatenate([s]),
     "merge_self": lambda s, c: s.merge([s]),
+    # a call the library rejects by design (non-integral stretch factor), the caller carries on with the same object
+    "rejected_scale": _rejected_scale,
     "add_note": _add_note,
     "add_wait": lambda s, c: s.add_relative_message(wait(5)),
     "edit_wait": _edit_wait,
@@ -107,10 +116,23 @@ def histories(depth, names=None):
             yield list(h)
 
 
-def apply(s, hist, ctx):
-    """apply a history; 'copy' semantics are not used here (the live object is kept)"""
+REJECTED = ("rejected_scale",)
+
+
+def apply(s, hist, ctx, R=None):
+    """apply a history; 'copy' semantics are not used here (the live object is kept).  A call that the library rejects
+    (raises) is 'no operation': with a result object R given, the content read through both views before and after
+    such a call is compared"""
     for name in hist:
-        HIST_OPS[name](s, ctx)
+        if name in REJECTED and R is not None:
+            before = (lib.view_abs(s)[:2], lib.view_rel(s)[:2])
+            if HIST_OPS[name](s, ctx) == "raised":
+                after = (lib.view_abs(s)[:2], lib.view_rel(s)[:2])
+                R.flags.append("rejected_call_in_history")
+                if after != before:
+                    R.bad("rejected_call_changed_the_sequence", f"{name}: (abs, rel) before {before} after {after}")
+        else:
+            HIST_OPS[name](s, ctx)
     return s
 
 
@@ -183,9 +205,11 @@ def live_case(case, R, p=60, c0=0, c1=1, hp=50):
     the public views, or None when the history is not applicable (R.outcome says why)."""
     s = build_seed(seed_descs(p, c0, c1)[case["seed"]], case["build"])
     try:
-        apply(s, case["hist"], {"hp": hp})
+        apply(s, case["hist"], {"hp": hp}, R)
     except Exception as e:  # noqa: BLE001
         R.outcome = "history_raises:" + type(e).__name__
+        return None
+    if R.viols:
         return None
     d = observe_desc(s)
     if d is None:
